@@ -121,4 +121,52 @@ def initState (m : Option Mtime) (text : Text) : Option (RState Text) :=
 
 end
 
+/-! ### the real thread (`ConfigReloader::start` / `run`), with time abstracted
+
+`run` is `loop { sleep(rate); poll }`. The harness edits the file, waits `W` (a generous multiple
+of every ordinary rate it uses) and observes. Timing assumptions, recorded in props.d/C15.json:
+(T1) while the current rate is below `slowRate`, at least one poll happens between an edit and the
+observation that follows it — how many does not matter, `poll` is idempotent on an unchanged file
+(`C15_repeated_polls_idempotent`); (T2) while the current rate is at least `slowRate`, no poll
+happens between an edit and the next observation (the loop is inside its `sleep(rate)`), and a
+`longWait` step outlasts that sleep. -/
+
+def slowRate : Rate := 1000
+
+inductive TStep (Text : Type) where
+  | edit (fv : FileView Text)
+  | longWait
+  deriving Repr, DecidableEq
+
+structure TObs where
+  active : ConfigTag
+  touched : Bool        -- `set_config` was called since the previous observation
+  alive : Bool          -- the thread "log4rs refresh" exists
+  polled : Bool         -- (model only) a poll happened in this step
+  deriving Repr, DecidableEq
+
+section
+variable {Text : Type} [DecidableEq Text] (parse : Text → Option (ConfigTag × Option Rate))
+
+/-- `n + 1` polls that all see the same file -/
+def pollMany (fixed : Bool) (st : RState Text) (fv : FileView Text) : Nat → RState Text
+  | 0 => (poll parse fixed st fv).1
+  | n + 1 => pollMany fixed (poll parse fixed st fv).1 fv n
+
+/-- the thread over a history of edits; `cur` is what the file system currently shows -/
+def threadRun (fixed : Bool) : RState Text → FileView Text → List (TStep Text) → List TObs
+  | _, _, [] => []
+  | st, cur, step :: rest =>
+    let (view, polled) : FileView Text × Bool := match step with
+      | .edit fv => (fv, decide (st.rate < slowRate))
+      | .longWait => (cur, true)
+    if polled then
+      let r := poll parse fixed st view
+      { active := r.1.active, touched := r.2 == .applied, alive := r.1.alive, polled := true }
+        :: threadRun fixed r.1 view rest
+    else
+      { active := st.active, touched := false, alive := st.alive, polled := false }
+        :: threadRun fixed st view rest
+end
+
 end Log4rs.Reconfig.Reloader
